@@ -15,16 +15,25 @@ FORMAT = (
     "request) 19 the same for with_fallback using reset() 20 hedge in latency mode (delay 1 ms; every call of the "
     "strict service then takes 10 ms so that all k hedges fire through the timer branch) 21 bulkhead at its gate "
     "(max_concurrent_calls 1, max_wait_duration 1 s) 22 rate limiter at its gate (1 permit per 10 ms window, "
-    "timeout 30 ms) 23 adaptive limiter at its gate (AIMD, limit fixed to 1). "
+    "timeout 30 ms) 23 adaptive limiter at its gate (AIMD, limit fixed to 1) 24 retry with the crate's DEFAULT "
+    "policy (every error is retried; ids 3 / 15 use retry_on(kind == TRANSIENT)) 25 reconnect with the crate's DEFAULT "
+    "predicate (id 8: only errors whose text starts with 'E kind=1 ') 26 hedge in latency mode with a delay (10 ms) "
+    "longer than a call of the strict service (2 ms): the next hedge starts only after every earlier attempt failed. "
+    "K field of modes 1 and 3: K = k + 16*E + 2^20*F; k <= 6 further attempts of every retrying / hedging layer; E: "
+    "bit j-1 = every call for request j fails with an APPLICATION error; F = 0: default failure schedule (with a hedge "
+    "layer nothing fails, otherwise the first (k+1)^m - 1 calls of every request fail with a TRANSIENT error, m = number "
+    "of retry / reconnect layers), F > 0: the first F - 1 calls of every request fail. "
     "mode 1 (readiness protocol, strict contract-checking wrapped service, one handle, one request after the other): "
-    "[1; n; layer ids outermost first; k (extra attempts of retry/hedge/reconnect); nreq; shared oracle of the "
-    "wrapped poll_ready: 0 Ready 1 Pending 2 Err...] -> per request 0 called and answered Ok(10*request) / 1 readiness "
-    "error at poll_ready, in the pass-through wrapping of all n layers / 2 the same inside the call / 3 never ready "
-    "(never produced by the model: 4 poll_ready failed with anything else, 5 readiness error in a wrong wrapping "
-    "inside the call, 6 any other outcome, 7 panic, 9 never completed), then the wrapped service's log, instances "
-    "renamed by first use: [1; inst; r; 0] poll, [2; inst; was-ready; request] call, then [violations]. The model sees "
-    "the discipline code of each layer instead of its id (model_input): 0 Swap 1 Direct 2 Retry 3 Hedge 4 Reconnect. "
-    "mode 3 (client programs over the same service): [3; n; layer ids; k; nops; (opcode; a; b)*nops; per-instance "
+    "[1; n; layer ids outermost first; K; nreq; shared oracle of the wrapped poll_ready: 0 Ready 1 Pending 2 Err...] "
+    "-> per request 0 answered Ok(10*request) / 1 readiness error at poll_ready, in the pass-through wrapping of all n "
+    "layers / 2 the same inside the call / 3 never ready / 6 an error made up by a layer / 10 the wrapped service's "
+    "application error in pass-through wrapping / 11 its transient error (never produced by the model: 4 poll_ready "
+    "failed with anything else, 5 an error of the wrapped service in a wrong wrapping, 7 panic, 9 never completed), "
+    "then the wrapped service's log, instances renamed by first use: [1; inst; r; 0] poll, [2; inst; was-ready + "
+    "2*result (0 Ok 1 transient 2 application); request] call, then [violations]. The model sees the discipline code of "
+    "each layer instead of its id (model_input): 0 Swap 1 Direct 2 Retry 3 Hedge 4 Reconnect 5 Retry/default policy "
+    "6 Reconnect/default predicate 7 HedgeSeq. "
+    "mode 3 (client programs over the same service): [3; n; layer ids; K; nops; (opcode; a; b)*nops; per-instance "
     "oracle: the answers of the instance used first, -1, those of the instance used second, -1, ...]; opcodes 0 poll "
     "handle a until Ready (at most 8 Pending) / 1 call on handle a, b=1: the wrapped service's calls for this request "
     "are held until released / 2 clone handle a (handles are numbered in order of creation, 0 = the stack) / "
@@ -41,7 +50,9 @@ FORMAT = (
     "listeners; every listener counted, per event kind, exactly the events the reference listeners counted]. "
     "mode 4 (listeners on every layer of a stack, non-triggering configuration): [4; n; layer ids; nlisteners; panic "
     "mask; nreq; (req; okind; oval)*] -> per request the four integers of mode 0, then for every layer position, every "
-    "listener and every event kind 0..5 the number of invocations"
+    "listener and every event kind 0..5 the number of invocations, then the same counts of the reference run (same "
+    "script, well-behaved listeners). Panic mask (modes 2, 4): bit i = listener i panics with a String payload, bit "
+    "i+4 = it panics with a payload whose Drop panics (std::panic::panic_any)"
 )
 RULE = (
     "mode 1: every layer alone x k 0..3 x 1..2(3) requests x a Pending, an Err, Pending+Pending/Err at every poll "
@@ -56,8 +67,13 @@ RULE = (
     "hedges with Pending answers on the hedge clones; futures left un-polled while the handle is polled and called "
     "again. mode 0: every layer x inner kinds (direct, Buffer(4), ConcurrencyLimit(2), ConcurrencyLimit(1)) x ok/err, "
     "random stacks of 2..5 layers, the composition guide's stacks. "
-    "mode 2: every layer with a listener API x 1..4 listeners x every panic mask. mode 4: every layer alone, the "
-    "guide's stacks and random stacks with 1..3 listeners on every layer x every panic mask. thorough adds all "
+    "mode 2: every layer with a listener API x 1..4 listeners x every panic mask, plus masks with payloads whose Drop "
+    "panics. mode 4: every layer alone, the guide's stacks and random stacks with 1..3 listeners on every layer x every "
+    "panic mask, both payload styles. Default predicates (24, 25): alone and as the single retrying layer of random "
+    "stacks with Err answers before further attempts; any two retrying layers (default predicates included) with the "
+    "default failure schedule or any number of failing calls (exhausted attempts). Attempts failing under a hedge "
+    "(7, 20, 26; 0..k+2 failing calls). Application errors of the wrapped service for any subset of the requests, every "
+    "layer and random stacks (modes 1, 3). thorough adds all "
     "oracles over {Ready,Pending,Err} up to length 4 per layer and all two-layer stacks. Circuit breakers that have "
     "been OPEN (ids 16..19, both Service impls): alone and at every depth of random stacks in modes 1 and 0 (all inner "
     "kinds). Non-trivial = some Pending/Err or k > 0 (mode 1), more than one handle / a held or un-polled call / a "
@@ -78,6 +94,10 @@ TRUSTED = [
     "(enabled in harness/Cargo.toml): ONE callback per kind, so listener 0 is on_state_change (event kind 0), "
     "listener 1 is on_reconnect (kind 1) and further listeners are not registered; adaptive, coalesce and executor "
     "have no listener API: mode 2 answers [1; 1] for them without running anything",
+    "the predicates of the retrying layers: ids 3, 15: retry_on(|e| e.kind == TRANSIENT); id 8: reconnect_predicate("
+    "error text starts with 'E kind=1 '); ids 24, 25: none (the crates' defaults: every error is retried); one "
+    "configuration per layer otherwise (count-based breaker, fixed window, fixed 1 ms / zero backoff, LRU, fallback "
+    "value strategy with handle(|_| false), chaos without error injection)",
     "mode 2 uses triggering configurations (small breaker window, rate limit 2, cache of 2, 20 ms time limit, "
     "10 ms hedge delay, chaos error rate 0.5 with a fixed seed) so that every event kind is emitted; its model is "
     "the constant [1; 1] per request (the comparison is between two runs of the same binary)",
@@ -90,15 +110,27 @@ ASSUMPTIONS = [
     "the violation count and the multiset of calls only",
     "hedge in parallel mode (7): the real hedge tasks interleave, the model runs them one after the other; in mode 1 "
     "Pending answers are only scripted where no parallel hedge tasks run; in mode 3 (per-instance oracle) they are, "
-    "and the logs are compared instance by instance",
-    "hedge treats every primary error as its trigger (it waits for the hedge and reports AllAttemptsFailed, never "
-    "HedgeError::Inner): transparency scripts containing hedge use Ok inner outcomes only; a readiness error met by a "
-    "hedge attempt fails that attempt only (by design) and is not required to surface",
+    "and the logs are compared instance by instance; below a hedge with k > 0: no second retrying layer, no layer "
+    "that spawns a task (executor, non-cancelling time limiter), no layer at its gate, no adaptive limiter when "
+    "attempts fail (failures lower its limit and concurrent attempts then find its gate closed)",
+    "NOT a property of the code (DESIGN 3.1, 'noticed, outside the quantifiers'; second review C3): hedge is not "
+    "transparent for ERROR outcomes. It treats every failure of its attempts, an inner error answered at once "
+    "included, as its trigger: it waits for / sends the hedges and reports HedgeError::AllAttemptsFailed; "
+    "HedgeError::Inner is never produced. Transparency scripts (modes 0, 4) containing hedge therefore use Ok inner "
+    "outcomes only, and in modes 1 / 3 a request all of whose calls failed under a hedge may end with the layer's own "
+    "error (code 6). A readiness error met by a hedge ATTEMPT on its clone fails that attempt only and is not "
+    "required to surface (tolerated: Err answers given to an instance that is never used again)",
+    "which predicates (second review C2): 'readiness errors surface as readiness errors, none swallowed' is claimed "
+    "for retry / reconnect layers whose predicate REFUSES readiness errors -- ids 3, 15 (retry_on(kind == TRANSIENT)) "
+    "and 8 (reconnect_predicate: error text starts with 'E kind=1 ') -- and for a layer with the crate's DEFAULT "
+    "predicate (ids 24, 25: every error is retried) only as far as its OWN failed readiness check before a further "
+    "attempt goes (it ends the request). A default-predicate retrying layer ABOVE another retrying layer cannot tell "
+    "that layer's in-call readiness error from a call error and retries it: its protective condition is triggered, "
+    "the monitor accepts it (and only there), the model reproduces it (Retry _ true / Reconnect _ true)",
     "a breaker that starts Open (16/17) is scripted so that its half-open trial call succeeds (mode 0: first inner "
     "outcome Ok; mode 1: no retrying layer above it when k > 0), otherwise it re-opens and rejects, which is not a "
-    "non-triggering configuration",
-    "retry / hedge / reconnect with k > 0: one such layer per stack, or two of retry (3, 15) / reconnect-above-retry; "
-    "below a hedge with k > 0 no layer that spawns a task (executor, non-cancelling time limiter)",
+    "non-triggering configuration (the monitor accepts a rejection only after an earlier request has failed)",
+    "ids 24, 25, 26 are protocol-mode variants (modes 1, 3); they are not used in modes 0, 2, 4",
 ]
 # scripts on which the REAL code violates the property (none known)
 KNOWN_DEFECT = []
@@ -107,17 +139,21 @@ NAMES = ["bulkhead", "ratelimiter", "circuitbreaker", "retry", "timelimiter", "c
          "reconnect", "adaptive", "coalesce", "executor", "chaos", "cb_with_fallback", "timelimiter_nocancel",
          "retry_zero_backoff", "cb_was_open", "cb_fallback_was_open", "cb_closed_between_poll_and_call",
          "cb_fallback_reset_between_poll_and_call", "hedge_latency_mode", "bulkhead_at_gate", "ratelimiter_at_gate",
-         "adaptive_at_gate"]
+         "adaptive_at_gate", "retry_default_policy", "reconnect_default_predicate", "hedge_latency_sequential"]
 # the layers that can go anywhere; 16/17 (breaker that starts Open) need their half-open trial call to
 # succeed and are generated separately (OPENED); 20..23 are generated separately too
 ALL = list(range(16)) + [18, 19]
 OPENED = (16, 17)
 CB_VARIANTS = (16, 17, 18, 19)
-# discipline codes of Model/Layers.v: 0 Swap 1 Direct 2 Retry 3 Hedge 4 Reconnect
+# discipline codes of Model/Layers.v: 0 Swap 1 Direct 2 Retry 3 Hedge 4 Reconnect (2, 4: predicates accepting
+# transient errors only) 5 Retry with the default policy 6 Reconnect with the default predicate 7 HedgeSeq
 DISC = {0: 0, 1: 0, 2: 0, 3: 2, 4: 0, 5: 1, 6: 0, 7: 3, 8: 4, 9: 1, 10: 1, 11: 0, 12: 0, 13: 0, 14: 0, 15: 2,
-        16: 0, 17: 0, 18: 0, 19: 0, 20: 3, 21: 0, 22: 0, 23: 1}
-SPECIAL = (3, 7, 8, 15, 20)
-HEDGES = (7, 20)
+        16: 0, 17: 0, 18: 0, 19: 0, 20: 3, 21: 0, 22: 0, 23: 1, 24: 5, 25: 6, 26: 7}
+SPECIAL = (3, 7, 8, 15, 20, 24, 25, 26)
+HEDGES = (7, 20, 26)
+RETRYING = (3, 8, 15, 24, 25)        # retry / reconnect layers
+DEFAULT_PRED = (24, 25)              # ... configured with the crate's default predicate
+RECONNECTS = (8, 25)
 LISTENER_LAYERS = [0, 1, 2, 3, 4, 5, 6, 7, 8, 12, 13, 14, 15]
 NO_LISTENER_LAYERS = [9, 10, 11]
 # layers usable in client programs (mode 3): no harness hooks around the client's steps (18, 19)
@@ -129,6 +165,17 @@ GUIDE = [
     [6, 4, 2], [4, 10, 2], [6, 5, 4, 2, 3, 4], [1, 0, 4], [2, 3], [3, 2], [6, 2], [3, 4], [0, 1],
     [6, 4, 2, 3, 8], [5, 2, 4], [5, 2, 3], [5, 3, 4],
 ]
+
+
+def kf(k, emask=0, fail=None):
+    """the K field of modes 1 and 3: k further attempts; emask: bit j-1 = request j gets an application error;
+    fail: None = the default failure schedule, else the number of leading calls of every request that fail"""
+    return k + 16 * emask + (0 if fail is None else (fail + 1) << 20)
+
+
+def kdec(K):
+    K = max(0, K)
+    return min(6, K % 16), (K // 16) % 65536, K >> 20
 
 
 def proto(ids, k, nreq, orc):
@@ -249,6 +296,40 @@ def corpus():
     # more Pending answers before a further attempt than the client itself would accept
     out.append(proto([3], 1, 1, [0] + [1] * 11 + [0]))
     out.append(proto([8], 1, 1, [0] + [1] * 9 + [2]))
+    # the crates' DEFAULT predicates (24 retry, 25 reconnect): the layer's OWN failed readiness check before a
+    # further attempt ends the request with that error (second review, R1 / R2) ...
+    for lid in (24, 25):
+        out.append(proto([lid], 1, 1, [0, 2]))
+        out.append(proto([lid], 2, 2, [0, 0, 2, 0, 2]))
+        out.append(proto([4, lid, 0], 1, 1, [0, 2, 0]))
+        out.append(prog([lid], 1, seq_ops(1), [[0, 2, 0]]))
+    # ... while a default-predicate retry ABOVE another retrying layer legitimately retries that layer's readiness
+    # error (guide stack retry over reconnect, second review C2)
+    out.append(proto([24, 8], 1, 1, [0, 2]))
+    out.append(proto([24, 3], 1, 1, [0, 2]))
+    out.append(proto([6, 4, 2, 24, 25], 1, 2, [0, 2, 0, 0, 2]))
+    # attempts failing under a hedge; latency mode with a delay longer than a call: the next hedge only after
+    # the previous attempt has failed (R3)
+    for k in (1, 2, 3):
+        out.append(proto([26], kf(k, 0, k), 2, []))
+        out.append(proto([26], kf(k, 0, 1), 1, [0, 1, 0]))
+        out.append(proto([4, 26, 0], kf(k, 0, k), 1, [0, 1, 0]))
+        out.append(proto([7], kf(k, 0, k), 1, []))
+        out.append(proto([20], kf(k, 0, k + 1), 1, []))     # every attempt fails: AllAttemptsFailed
+    # error outcomes of the wrapped service over the strict service (application errors)
+    for lid in ALL + [21, 22, 23, 24, 25]:
+        out.append(proto([lid], kf(1 if lid in SPECIAL else 0, 0b10), 3, [0, 1, 0]))
+    out.append(proto([4, 3, 2], kf(2, 0b01), 2, []))
+    # listeners panicking with a payload whose Drop panics (fix afefac0 for EventListeners::emit, 56b9388 for
+    # reconnect's callback sites)
+    out.append(lis4([0], 2, 16, [(5, 0, 11)]))
+    out.append(lis4([5], 2, 16, [(5, 0, 11)]))
+    out.append(lis4([8], 1, 16, [(5, 0, 11)]))
+    out.append(lis4([4, 8, 0], 2, 16 + 32, [(5, 0, 11), (6, 1, 12)]))
+    out.append(lis(8, 1, 16, [0]))
+    out.append(lis(8, 2, 32, [2, 0]))
+    out.append(lis(0, 2, 16, [0, 1]))
+    out.append(lis(2, 3, 16 + 2, [0, 1, 1, 1, 0, 0]))
     # a top-level poll_ready that stays Pending longer than the client waits
     out.append(proto([0], 0, 2, [1] * 8 + [0]))
     out.append(proto([4, 5, 3], 1, 2, [1] * 9))
@@ -357,7 +438,7 @@ def generate(rng, tier):
     out = []
     plain = [i for i in ALL if i not in SPECIAL]
     # ---- mode 1: every layer alone
-    for lid in ALL + [20, 21, 22, 23]:
+    for lid in ALL + [20, 21, 22, 23, 24, 25]:
         ks = (0, 1, 2, 3) if lid in SPECIAL else (0, 2)
         for k in ks:
             for nreq in ((1, 2) if quick else (1, 2, 3)):
@@ -459,9 +540,57 @@ def generate(rng, tier):
             orc.append(x)
             answered += x == 0
         out.append(proto(st, k, nreq, orc + rand_oracle(rng, rng.randrange(0, (nreq - 1) * (k + 1) + 2))))
+    # ---- mode 1: the crates' default predicates (24 retry, 25 reconnect) as the only retrying layer ...
+    for _ in range(200 if quick else 4000):
+        st = [rng.choice(plain + [21, 22]) for _ in range(rng.randrange(0, 4))]
+        st.insert(rng.randrange(len(st) + 1), rng.choice(DEFAULT_PRED))
+        k = rng.randrange(1, 4)
+        nreq = rng.randrange(1, 3)
+        out.append(proto(st, k, nreq, rand_oracle(rng, rng.randrange(0, nreq * (k + 1) + 2), True, rng.choice((5, 12)))))
+    # ... and any two retrying layers, default predicates included, with the default failure schedule or any
+    # number of failing calls (exhausted attempts: the last error comes back, reconnect gives up)
+    for _ in range(250 if quick else 5000):
+        outer, inner = rng.choice(RETRYING), rng.choice(RETRYING)
+        a = [rng.choice(plain) for _ in range(rng.randrange(0, 2))]
+        m = [rng.choice(plain) for _ in range(rng.randrange(0, 2))]
+        b = [rng.choice(plain) for _ in range(rng.randrange(0, 2))]
+        k = rng.randrange(1, 3)
+        nreq = rng.randrange(1, 3)
+        fail = None if rng.random() < 0.5 else rng.randrange(0, (k + 2) * (k + 2) + 1)
+        out.append(proto(a + [outer] + m + [inner] + b, kf(k, 0, fail), nreq,
+                         rand_oracle(rng, rng.randrange(0, nreq * (k + 1) * (k + 1) + 2))))
+    for _ in range(150 if quick else 3000):
+        # one retrying layer, any number of failing calls
+        st = [rng.choice(plain) for _ in range(rng.randrange(0, 3))]
+        st.insert(rng.randrange(len(st) + 1), rng.choice(RETRYING))
+        k = rng.randrange(0, 4)
+        nreq = rng.randrange(1, 3)
+        out.append(proto(st, kf(k, 0, rng.randrange(0, k + 4)), nreq, rand_oracle(rng, rng.randrange(0, nreq * (k + 1) + 2))))
+    # ---- mode 1: attempts failing under a hedge (parallel: Ready / Err answers only; latency modes: Pending too)
+    for _ in range(250 if quick else 5000):
+        above = [rng.choice(plain) for _ in range(rng.randrange(0, 3))]
+        # (not the adaptive limiter: failures lower its limit, and concurrent attempts then find its gate closed)
+        below = [rng.choice([i for i in below_ok if i != 9]) for _ in range(rng.randrange(0, 3))]
+        k = rng.randrange(1, 4)
+        nreq = rng.randrange(1, 3)
+        hid = rng.choice(HEDGES)
+        out.append(proto(above + [hid] + below, kf(k, 0, rng.randrange(0, k + 3)), nreq,
+                         rand_oracle(rng, rng.randrange(0, nreq * (k + 1) + 2), hid != 7)))
+    # ---- mode 1: application errors of the wrapped service (every layer, stacks, with and without retrying layers)
+    for _ in range(300 if quick else 6000):
+        st = [rng.choice(ALL + [21, 22, 24, 25]) for _ in range(rng.randrange(1, 5))]
+        nsp = [i for i in st if i in SPECIAL]
+        # below a hedge: no second retrying layer, no task-spawning layer, no layer at its gate, no adaptive limiter
+        if any(i in HEDGES for i in st) and (len(nsp) > 1 or any(i in (9, 11, 14, 21, 22) for i in st)):
+            continue
+        k = rng.randrange(0, 3) if len([i for i in st if i in RETRYING]) <= 2 else 0
+        nreq = rng.randrange(1, 4)
+        allow_pending = not (7 in st and k > 0)
+        out.append(proto(st, kf(k, rng.randrange(1, 1 << nreq)), nreq,
+                         rand_oracle(rng, rng.randrange(0, nreq + 3), allow_pending)))
     # ---- mode 3: client programs
     prog_plain = [i for i in PROG if i not in SPECIAL]
-    for lid in PROG + [20, 21, 22, 23]:
+    for lid in PROG + [20, 21, 22, 23, 24, 25]:
         k = 1 if lid in SPECIAL else 0
         for nreq in (1, 2):
             out.append(prog([lid], k, seq_ops(nreq)))
@@ -487,7 +616,9 @@ def generate(rng, tier):
     for _ in range(250 if quick else 5000):
         # overlapping requests (k = 0): held calls released in any order, several handles
         st = [rng.choice(prog_plain + [3, 7, 8, 15]) for _ in range(rng.randrange(1, 4))]
-        out.append(prog(st, 0, rand_overlap(rng, rng.randrange(2, 6), False), rand_segs(rng, rng.randrange(0, 7), 3)))
+        # (application errors lower the adaptive limiter's limit: with overlapping requests its gate would close)
+        out.append(prog(st, kf(0, 0 if 9 in st else rng.choice((0, 0, 1, 2, 5))), rand_overlap(rng, rng.randrange(2, 6), False),
+                        rand_segs(rng, rng.randrange(0, 7), 3)))
     for _ in range(100 if quick else 2000):
         # futures left un-polled while the client goes on (compared on codes / calls only)
         st = [rng.choice(prog_plain + [3, 7, 8, 15]) for _ in range(rng.randrange(1, 4))]
@@ -564,6 +695,12 @@ def generate(rng, tier):
         out.append(lis(lid, nl, rng.randrange(1, 1 << nl), [rng.randrange(5) for _ in range(rng.randrange(1, 9))]))
     for lid in NO_LISTENER_LAYERS:
         out.append(lis(lid, 2, 3, [0, 1, 0]))
+    # listeners panicking with a payload whose Drop panics (mask bits 4..7), alone and mixed with the others
+    for lid in LISTENER_LAYERS:
+        for nl in (1, 2, 3):
+            for _ in range(2 if quick else 12):
+                mask = (rng.randrange(1, 1 << nl) << 4) | rng.randrange(1 << nl)
+                out.append(lis(lid, nl, mask, [rng.randrange(5) for _ in range(rng.randrange(1, 7))]))
     # ---- mode 4: listeners on every layer of a stack, absolute per-kind counts
     for lid in list(range(16)) + [20, 21, 22, 23]:
         for nl in (1, 2, 3):
@@ -576,7 +713,11 @@ def generate(rng, tier):
     for _ in range(200 if quick else 3000):
         st = [rng.choice(list(range(16)) + [21, 22]) for _ in range(rng.randrange(2, 6))]
         nl = rng.randrange(1, 4)
-        out.append(lis4(st, nl, rng.randrange(1 << nl), rand_reqs(rng, rng.randrange(1, 4), 7 in st)))
+        mask = rng.randrange(1 << nl) | (rng.randrange(1 << nl) << 4 if rng.random() < 0.5 else 0)
+        out.append(lis4(st, nl, mask, rand_reqs(rng, rng.randrange(1, 4), 7 in st)))
+    for lid in list(range(16)):
+        for nl in (1, 2):
+            out.append(lis4([lid], nl, 16, [(5, 0, 11), (6, 0 if lid in HEDGES else 1, 12)]))
     return out
 
 
@@ -584,9 +725,14 @@ def generate(rng, tier):
 def parse1(s):
     n = s[1] if len(s) > 1 else 0
     ids = list(s[2:2 + n])
-    k = s[2 + n] if len(s) > 2 + n else 0
+    k = kdec(s[2 + n] if len(s) > 2 + n else 0)[0]
     nreq = s[3 + n] if len(s) > 3 + n else 0
     return n, ids, k, nreq, list(s[4 + n:])
+
+
+def kfield(s):
+    n = s[1] if len(s) > 1 else 0
+    return s[2 + n] if len(s) > 2 + n else 0
 
 
 def parse3(s):
@@ -658,7 +804,8 @@ def compare(s, impl, model):
 
 
 def mon_contract(log, violations):
-    """the Tower contract, replayed from the wrapped service's log alone"""
+    """the Tower contract, replayed from the wrapped service's log alone (third field of a call entry:
+    was-ready + 2 * result of the call)"""
     if violations != 0:
         return "%d call(s) reached a wrapped-service instance that had not been polled ready" % violations
     ready = {}
@@ -667,7 +814,7 @@ def mon_contract(log, violations):
             if v == 0:
                 ready[inst] = True
         elif kind == 2:
-            if not ready.get(inst) or v != 1:
+            if not ready.get(inst) or v % 2 != 1:
                 return "call on instance %d without readiness observed on it since its previous call" % inst
             ready[inst] = False
         else:
@@ -678,48 +825,106 @@ def mon_contract(log, violations):
 BAD_CODE = {
     4: "a readiness error of the wrapped service surfaced from poll_ready as something other than a readiness error "
        "in pass-through wrapping",
-    5: "a readiness error met inside the call surfaced in a wrapping other than the layers' pass-through variants",
-    6: "the request did not end with the wrapped service's answer (nor with a readiness error)",
+    5: "an error of the wrapped service came back in a wrapping other than the layers' pass-through variants",
+    6: "the request ended with an error made up by a layer although no protective condition was triggered",
     7: "panic",
     9: "the request never completed",
 }
 
 
-def tolerated_failures(ids, log, codes):
-    """how many requests may end with a failure made up by a layer (code 6) without violating the property:
-    * a breaker that has been open (16, 17) rejects again once its half-open trial call has failed: its
-      protective condition IS triggered then;
-    * hedge reports every failure of its attempts, a readiness error met further down included, as
-      AllAttemptsFailed (see ASSUMPTIONS): at most one request per readiness error that did not surface"""
-    if any(i in OPENED for i in ids):
-        return len(codes)
-    if any(h in ids for h in HEDGES):
-        errs = sum(1 for (kind, _, v, _) in log if kind == 1 and v == 2)
-        return max(0, errs - sum(1 for c in codes if c in (1, 2)))
-    return 0
+def pending_runs(log):
+    """number of disjoint runs of at least 8 consecutive Pending answers given to one instance"""
+    runs, cur, n = 0, None, 0
+    for (kind, inst, v, _) in log:
+        if kind == 1 and v == 1 and inst == cur:
+            n += 1
+        elif kind == 1 and v == 1:
+            cur, n = inst, 1
+        else:
+            cur, n = None, 0
+        if n == 8:
+            runs += 1
+            cur, n = None, 0
+    return runs
 
 
-def mon_surface(ids, k, log, surfaced, issued, outcomes):
-    """readiness errors surface as readiness errors; every issued request reaches the wrapped service unchanged"""
+def dropped_after_error(log):
+    """Err answers given to an instance that never appears in the log again: the only readiness errors a hedge
+    layer can have met on one of its clones (it fails that attempt with the error, by design, and drops the clone)"""
+    last = {}
+    for pos, (kind, inst, v, _) in enumerate(log):
+        last[inst] = pos
+    return sum(1 for pos, (kind, inst, v, _) in enumerate(log) if kind == 1 and v == 2 and last[inst] == pos)
+
+
+def active(i, k):
+    """layer i makes further attempts in a script with k: reconnect's max_attempts(k + 1) allows one
+    reconnection even for k = 0"""
+    return i in RECONNECTS or (k > 0 and i in SPECIAL)
+
+
+def mon_requests(ids, k, log, surfaced_polls, never_ready, outcomes):
+    """what the property says about the issued requests (numbered 1.. in order of issue, [outcomes] their codes)
+    given the wrapped service's log"""
     errs = sum(1 for (kind, _, v, _) in log if kind == 1 and v == 2)
-    hedge = any(h in ids for h in HEDGES)
+    surfaced = surfaced_polls + sum(1 for c in outcomes if c == 2)
+    if never_ready > pending_runs(log):
+        return ("poll_ready reported never ready %d time(s), the wrapped service answered Pending 8 times in a row "
+                "only %d time(s)" % (never_ready, pending_runs(log)))
+    # readiness errors surface as readiness errors
     if surfaced > errs:
         return "%d readiness error(s) reported, the wrapped service returned only %d" % (surfaced, errs)
-    if surfaced < errs and not hedge:
-        return "%d readiness error(s) of the wrapped service, only %d surfaced as readiness errors" % (errs, surfaced)
-    special = k > 0 and any(i in SPECIAL for i in ids)
-    sent = {}
+    if surfaced < errs:
+        below = [p for p, i in enumerate(ids) if i in RETRYING]
+        if any(i in DEFAULT_PRED and active(i, k) and any(q > p for q in below) for p, i in enumerate(ids)):
+            pass    # a default-predicate retry above another retrying layer retries that layer's readiness error
+                    # like any call error: its own protective condition (see ASSUMPTIONS)
+        else:
+            # (a hedge layer, even with a single attempt, reports an error of its primary as AllAttemptsFailed)
+            allowed = dropped_after_error(log) if any(h in ids for h in HEDGES) else 0
+            if errs - surfaced > allowed:
+                return ("%d readiness error(s) of the wrapped service, only %d surfaced as readiness errors"
+                        % (errs, surfaced))
+    # every request reaches the wrapped service unchanged and gets that call's answer
+    calls = {}
     for (kind, _, v, q) in log:
         if kind == 2:
-            sent[q] = sent.get(q, 0) + 1
-    for q in sent:
-        if q not in issued:
+            calls.setdefault(q, []).append(v // 2)
+    for q in calls:
+        if not 1 <= q <= len(outcomes):
             return "the wrapped service saw request %d, which the client never issued" % q
-    for q, c in zip(issued, outcomes):
-        if c == 0 and sent.get(q, 0) < 1:
-            return "request %d answered although the wrapped service never saw it" % q
-        if c == 0 and not special and sent.get(q, 0) != 1:
-            return "request %d was forwarded %d times" % (q, sent.get(q, 0))
+    special = any(active(i, k) for i in ids)
+    gives_up = any(i in HEDGES or i in RECONNECTS for i in ids)
+    was_open = any(i in OPENED for i in ids)
+    failed_before = False
+    for j, c in enumerate(outcomes):
+        q, res = j + 1, calls.get(j + 1, [])
+        if c in (4, 5, 7, 9):
+            return "request %d: %s" % (q, BAD_CODE[c])
+        if c == 6:
+            # a layer's own error: only where a protective condition was triggered -- hedge / reconnect giving up
+            # after every attempt has failed (hedge's AllAttemptsFailed for error outcomes: see ASSUMPTIONS), a
+            # breaker that has been open rejecting after its trial call failed
+            if not ((gives_up and 0 not in res) or (was_open and failed_before)):
+                return "request %d: %s" % (q, BAD_CODE[6])
+        elif c == 0:
+            if 0 not in res:
+                return "request %d answered Ok although no call of the wrapped service for it answered Ok" % q
+            if not special and len(res) != 1:
+                return "request %d was forwarded %d times" % (q, len(res))
+        elif c == 10:
+            if not res or any(r != 2 for r in res):
+                return "request %d ended with an application error the wrapped service did not answer" % q
+            if not special and len(res) != 1:
+                return "request %d was forwarded %d times" % (q, len(res))
+        elif c == 11:
+            if 1 not in res:
+                return "request %d ended with a transient error the wrapped service did not answer" % q
+        elif c != 2:
+            return "request %d: unknown code %d" % (q, c)
+        if c != 0 and 0 in res and not any(h in ids for h in HEDGES):
+            return "request %d: the wrapped service answered Ok, the request ended with code %d" % (q, c)
+        failed_before = failed_before or c != 0
     return None
 
 
@@ -732,17 +937,16 @@ def mon_protocol(s, t):
     m = mon_contract(log, t[-1])
     if m:
         return m
-    tolerated = tolerated_failures(ids, log, codes)
     for j, c in enumerate(codes):
-        if c == 6 and tolerated > 0:
-            tolerated -= 1
-            continue
-        if c in BAD_CODE:
+        if c in (4, 7):
             return "request %d: %s" % (j + 1, BAD_CODE[c])
-        if c not in (0, 1, 2, 3):
-            return "request %d: unknown code %d" % (j + 1, c)
-    issued = [j + 1 for j, c in enumerate(codes) if c in (0, 2)]
-    return mon_surface(ids, k, log, sum(1 for c in codes if c in (1, 2)), issued, [c for c in codes if c in (0, 2)])
+    # requests that got as far as call(), renumbered as the wrapped service saw them
+    issued = [(j + 1, c) for j, c in enumerate(codes) if c not in (1, 3)]
+    renum = {q: i + 1 for i, (q, _) in enumerate(issued)}
+    log2 = [(kind, inst, v, renum.get(q, -q - 1000) if kind == 2 else q) for (kind, inst, v, q) in log]
+    m = mon_requests(ids, k, log2, sum(1 for c in codes if c == 1), sum(1 for c in codes if c == 3),
+                     [c for (_, c) in issued])
+    return m.replace("request ", "issued request ") if m and len(issued) != nreq else m
 
 
 def mon_program(s, t):
@@ -754,25 +958,16 @@ def mon_program(s, t):
     m = mon_contract(log, viol)
     if m:
         return m
-    surfaced = 0
+    surfaced, never = 0, 0
     for i, (o, c) in enumerate(zip(ops, codes)):
         if o[0] in (POLL, GATE):
             if c in (4, 7):
                 return "operation %d (poll_ready): %s" % (i + 1, BAD_CODE[c])
             surfaced += c == 1
+            never += (c == 3 and o[0] == POLL)
         elif c == 7:
             return "operation %d: panic" % (i + 1)
-    tolerated = tolerated_failures(ids, log, list(outs) + [1] * surfaced)
-    for j, c in enumerate(outs):
-        if c == 6 and tolerated > 0:
-            tolerated -= 1
-            continue
-        if c in BAD_CODE:
-            return "request %d: %s" % (j + 1, BAD_CODE[c])
-        if c not in (0, 2):
-            return "request %d: unknown code %d" % (j + 1, c)
-    surfaced += sum(1 for c in outs if c == 2)
-    return mon_surface(ids, k, log, surfaced, list(range(1, len(outs) + 1)), outs)
+    return mon_requests(ids, k, log, surfaced, never, list(outs))
 
 
 def mon_transparent(s, t, base=None):
@@ -813,16 +1008,24 @@ NK = 6
 def mon_listeners_stack(s, t):
     n = s[1]
     nl, mask, nreq = min(4, max(0, s[2 + n])), s[3 + n], s[4 + n]
-    if len(t) != 4 * nreq + n * nl * NK:
+    if len(t) != 4 * nreq + 2 * n * nl * NK:
         return "malformed or panicking run: %s" % t
     m = mon_transparent(s, t, 4 + n)
     if m:
         return m + " (listener panic mask %d)" % mask
-    # every listener of a layer receives every event its fellow listeners receive, whichever of them panic
+    counts = t[4 * nreq: 4 * nreq + n * nl * NK]
+    reference = t[4 * nreq + n * nl * NK:]
     for p in range(n):
-        if s[2 + p] == 8:
-            continue      # reconnect: one callback per kind, the listeners receive different events
-        vecs = [t[4 * nreq + (p * nl + i) * NK: 4 * nreq + (p * nl + i + 1) * NK] for i in range(nl)]
+        vecs = [counts[(p * nl + i) * NK: (p * nl + i + 1) * NK] for i in range(nl)]
+        refs = [reference[(p * nl + i) * NK: (p * nl + i + 1) * NK] for i in range(nl)]
+        # every listener receives every event it receives when nobody panics (reference run of the same script) ...
+        for i in range(nl):
+            if vecs[i] != refs[i]:
+                return ("layer %d: listener %d received %s events per kind, %s in the run without panicking "
+                        "listeners (mask %d)" % (p, i, vecs[i], refs[i], mask))
+        # ... and every event its fellow listeners receive (reconnect: one callback per kind)
+        if s[2 + p] in RECONNECTS:
+            continue
         for i in range(1, nl):
             if vecs[i] != vecs[0]:
                 return ("layer %d: listener %d received %s events per kind, listener 0 received %s (mask %d)"
@@ -875,6 +1078,11 @@ def classify(s, t):
             lab.append("oracle:err")
         if k > 0 and len([i for i in ids if i in SPECIAL]) > 1:
             lab.append("two-retrying-layers")
+        _, emask, f = kdec(kfield(s))
+        if emask:
+            lab.append("application-error")
+        if f:
+            lab.append("failing-calls-override")
         for c in t[:nreq]:
             lab.append("code%d" % c)
         return sorted(set(lab))
@@ -912,10 +1120,14 @@ def classify(s, t):
             lab.append("inner%d" % s[2 + n])
         else:
             lab += ["listeners%d" % s[2 + n], "panicking%d" % bin(s[3 + n] & 15).count("1")]
+            if s[3 + n] >= 16:
+                lab.append("payload-drop-panics")
         kinds = set(s[base + 2 + 3 * i] for i in range(nreq))
         lab += ["inner_ok" if x == 0 else "inner_err" for x in kinds]
         return sorted(set(lab))
-    lab = ["mode2", "L:" + name_of(s[1]), "listeners%d" % s[2], "panicking%d" % bin(s[3]).count("1")]
+    lab = ["mode2", "L:" + name_of(s[1]), "listeners%d" % s[2], "panicking%d" % bin(s[3] & 15).count("1")]
+    if s[3] >= 16:
+        lab.append("payload-drop-panics")
     return lab
 
 
@@ -923,32 +1135,41 @@ def shrink(s):
     """smaller candidate scripts"""
     if s[0] == 1:
         n, ids, k, nreq, orc = parse1(s)
+        K = kfield(s)
+        _, emask, f = kdec(K)
         for i in range(len(orc)):
-            yield proto(ids, k, nreq, orc[:i] + orc[i + 1:])
+            yield proto(ids, K, nreq, orc[:i] + orc[i + 1:])
         for i in range(len(orc)):
             if orc[i] != 0:
-                yield proto(ids, k, nreq, orc[:i] + [0] + orc[i + 1:])
+                yield proto(ids, K, nreq, orc[:i] + [0] + orc[i + 1:])
         if nreq > 1:
-            yield proto(ids, k, nreq - 1, orc)
+            yield proto(ids, K, nreq - 1, orc)
         if k > 0:
-            yield proto(ids, k - 1, nreq, orc)
+            yield proto(ids, K - 1, nreq, orc)
+        if emask:
+            yield proto(ids, kf(k, 0, None if f == 0 else f - 1), nreq, orc)
+        if f:
+            yield proto(ids, kf(k, emask), nreq, orc)
         if n > 1:
             for i in range(n):
-                yield proto(ids[:i] + ids[i + 1:], k, nreq, orc)
+                yield proto(ids[:i] + ids[i + 1:], K, nreq, orc)
     elif s[0] == 3:
         n, ids, k, ops, segs = parse3(s)
+        K = kfield(s)
         for i in range(len(segs)):
             if segs[i]:
-                yield prog(ids, k, ops, segs[:i] + [[]] + segs[i + 1:])
+                yield prog(ids, K, ops, segs[:i] + [[]] + segs[i + 1:])
         if segs and not segs[-1]:
-            yield prog(ids, k, ops, segs[:-1])
+            yield prog(ids, K, ops, segs[:-1])
         for i in range(len(ops) - 1, -1, -1):
-            yield prog(ids, k, ops[:i] + ops[i + 1:], segs)
+            yield prog(ids, K, ops[:i] + ops[i + 1:], segs)
         if k > 0:
-            yield prog(ids, k - 1, ops, segs)
+            yield prog(ids, K - 1, ops, segs)
+        if K >= 16:
+            yield prog(ids, k, ops, segs)
         if n > 1:
             for i in range(n):
-                yield prog(ids[:i] + ids[i + 1:], k, ops, segs)
+                yield prog(ids[:i] + ids[i + 1:], K, ops, segs)
     elif s[0] in (0, 4):
         n = s[1]
         ids = list(s[2:2 + n])
